@@ -175,7 +175,7 @@ Qed.
    exactly as Corr.check_case does with the implementation's trace.  [p_step] reports the first non-empty of nineteen
    components ([p_components], ProofsMon1.v, with [p_step_components]: p_step = (pm_final .., first_nonempty (p_components ..)));
    [trace_sub sel] is the same fold looking only at the components whose positions are in [sel]
-   ([trace_sub_all]: all twenty-one positions give [trace_ok]; [trace_sub_app]: selections combine).
+   ([trace_sub_all]: all twenty-two positions give [trace_ok]; [trace_sub_app]: selections combine).
    Proved so far: the panic component and the five state predicates, positions [sel_state] = 0 (e_panic), 1 (c01_dump),
    6 (c03_dump), 7 (c03_waited), 8 (c04_dump), 17 (c07_background). *)
 Theorem p_step_components : forall cfg t0 m pre e o post,
@@ -183,7 +183,7 @@ Theorem p_step_components : forall cfg t0 m pre e o post,
 Proof. exact p_step_components. Qed.
 Print Assumptions p_step_components.
 
-Theorem trace_sub_all : forall cfg t0 tr m pre, trace_sub_from (seq 0 21) cfg t0 m pre tr = trace_ok_from cfg t0 m pre tr.
+Theorem trace_sub_all : forall cfg t0 tr m pre, trace_sub_from (seq 0 22) cfg t0 m pre tr = trace_ok_from cfg t0 m pre tr.
 Proof. exact trace_sub_all. Qed.
 Print Assumptions trace_sub_all.
 
